@@ -1545,10 +1545,18 @@ class Interp:
                     if cap is None:
                         cap = fresh('$cap')
                     pv = ops[info['pairs']]
-                    if pv[0] != 'uninit_arr':
+                    if pv[0] == 'arr_of' and pv[1] in st.maps and not st.maps[pv[1]].dead:
+                        # a slot array that was moved out of another container as a whole (models.m_replace): the
+                        # carrier that stands for it becomes this container
+                        mid = pv[1]
+                        st.maps[mid].name = path
+                        st.zone.add_eq(st.maps[mid].cap, cap)
+                        st.log('adopted', mid)
+                    elif pv[0] != 'uninit_arr':
                         raise Unproven('container built from a non-fresh slot array')
-                    mid = self.new_map(st, cap, path, inv=False, length=0)
-                    st.log('new', mid)
+                    else:
+                        mid = self.new_map(st, cap, path, inv=False, length=0)
+                        st.log('new', mid)
                     if ln[0] != 'int':
                         raise Unproven('container built with a non-integer len')
                     if not (isinstance(ln[1], int) and ln[1] == 0):
